@@ -235,6 +235,18 @@ def check_concat(ctx, specs):
             got4 = retrieve(p, how)
             ctx.check('concatenation parses back', got4 == msgs, f'concat-{how}', case,
                       lambda: {'got': [m.hex() for m in got4][:8], 'want': [m.hex() for m in msgs][:8]})
+        # the parser's public message deque: taken hold of before the bytes are fed (as a port does), and the deque of a
+        # parser that was only ever a temporary
+        p = Parser()
+        dq = p.messages
+        p.feed(stream)
+        got5 = list(dq)
+        ctx.check('concatenation parses back', got5 == msgs, 'concat-held-deque', case, lambda: {'got': [m.hex() for m in got5][:8]})
+        import gc
+        dq2 = Parser(stream).messages
+        gc.collect()
+        got6 = list(dq2)
+        ctx.check('concatenation parses back', got6 == msgs, 'concat-deque-of-temporary-parser', case, lambda: {'got': [m.hex() for m in got6][:8]})
         poke(got)
         got3 = mido.parse_all(stream)
         ctx.check('concatenation parses back', got3 == [Message(t, **a) for t, a in specs],
